@@ -468,7 +468,7 @@ MANIFEST = {
 
 
 def run(ctx):
-    ctx.search("request", cases(), quick=4000, thorough=12000)
+    ctx.search("request", cases(), quick=4000, thorough=30000)
     ctx.enumerate("request", boundary_cases(), name="boundary-targets-x-methods")
     if ctx.quick():
         ctx.enumerate("request", port_sample_cases(), name="port-sample", exhaustive=False)
